@@ -85,7 +85,6 @@ def _is_num(x) -> bool:
 class Sym:
     """Symbolic number: linear form  sum(coef[v] * v) + const, or a raw z3 term (`ast`)."""
     __slots__ = ('ctx', 'lin', 'const', 'ast', 'is_int')
-    __array_priority__ = 1000.0
 
     def __init__(self, ctx: 'Ctx', lin: Optional[Dict[str, Fraction]], const: Fraction = Fraction(0), ast=None, is_int: bool = False):
         self.ctx = ctx
@@ -316,7 +315,12 @@ class Sym:
             return int(self.const)
         if self.is_int:
             return self.ctx._enumerate(self)
-        raise EngineUnsupported("int() of a symbolic real")
+        # int() truncates toward zero; the truncated value is enumerated (the harness must have bounded it)
+        x = self.z3()
+        if x.sort() == z3.IntSort():
+            return self.ctx._enumerate(Sym(self.ctx, None, ast=x, is_int=True))
+        t = z3.If(x >= 0, z3.ToInt(x), -z3.ToInt(-x))
+        return self.ctx._enumerate(Sym(self.ctx, None, ast=t, is_int=True))
 
     def __index__(self):
         if self.is_const and self.const.denominator == 1:
@@ -788,6 +792,8 @@ class Ctx:
         return val
 
     def _pick(self, zx, name, tried):
+        if len(tried) > 256:
+            raise EngineUnsupported(f"enumeration of an unbounded symbolic integer: {name}")
         if self._check(*[zx != t for t in tried]) != 'sat':
             raise PathAbort()
         val = self._last_model.eval(zx, model_completion=True).as_long()
